@@ -285,9 +285,13 @@ def read_env(src, expr, skip_envs=(), tolerance=0, mode=MODE_NON_MATH):
     contents = []
     while src.hasNext():
         if src.peek().category == TC.Escape:
-            name, args = make_read_peek(read_command)(
-                src, skip=1, tolerance=tolerance, mode=mode)
+            # only the command name is needed to spot the `\end`; its
+            # argument, the environment name, is read once it is found
+            name, _ = make_read_peek(read_command)(
+                src, 0, 0, skip=1, tolerance=tolerance, mode=mode)
             if name == 'end':
+                _, args = make_read_peek(read_command)(
+                    src, 1, 0, skip=1, tolerance=tolerance, mode=mode)
                 break
         contents.append(read_expr(src, skip_envs=skip_envs, tolerance=tolerance, mode=mode))
     error = not src.hasNext() or not args or args[0].string != expr.name
